@@ -129,4 +129,11 @@ PROPS = {
         statement="chain grammar + free map = maximal free runs; growth ⇔ no run fits",
         partial="proved: canonical form of the free map, markFree/getFreeRange keep it canonical with the exact coverage change, the file grows iff no free-map region fits. That the free map equals the maximal FREE runs of the file after every operation is evaluated on the implementation's bytes by an independent grammar walker after every operation (and byte-exactly against the model); the inductive proof over histories is not yet done. 'Steady-state churn is bounded' has no allocator-independent formulation and is monitored only",
     ),
+    "C08": dict(
+        modules=["Syzgy.Props.C08"], ties=["Storage"],
+        runs={"quick": [["faults-C08", "--scenarios", "3"]], "thorough": [["faults-C08", "--scenarios", "15"]]},
+        trusted=STORE_TRUST + ["fault model: bursts are contiguous in CRC bit order (least significant bit of each byte first); 2^-32 collisions of unrelated data are outside any checksum's reach"],
+        statement="CRC-32 linearity, burst and field detection; scan under body faults; two proved negatives",
+        partial="proved: checksum = bit-serial CRC-32; linearity; every <=32-bit burst inside the covered bytes and every change confined to the checksum field is detected; ReadRecord re-verifies; bad magic is an error. Proved negative: the 4-byte straddle burst 61d8|f4ee is undetected for every span (known finding). Header faults (magic/length/FREE headers) are covered by fault enumeration + model correspondence only; the forged-span construction shows they cannot be a theorem without a header checksum (known finding)",
+    ),
 }
